@@ -157,6 +157,15 @@ func determineCompletionContext(content string, pos protocol.Position, ctx *prot
 	}
 
 	if len(line) > 0 && line[0] >= '0' && line[0] <= '9' {
+		// the payee starts after the date: while the cursor is still inside the
+		// date there is no payee fragment to complete
+		byteCol := lsputil.UTF16OffsetToByteOffset(line, int(pos.Character))
+		if byteCol > len(line) {
+			byteCol = len(line)
+		}
+		if !strings.Contains(line[:byteCol], " ") {
+			return ContextDate
+		}
 		return ContextPayee
 	}
 
